@@ -66,6 +66,11 @@ check("C17", "exploration",
       "Trusted: four reference hashes written from the specifications (validated against all KAT files of the repository at every start); hook H2 only reads/overwrites the counter field. Jumped states carry a real chaining value but are not reachable by a feasible real stream.",
       "deterministic simulation: simulated clock (length counter) jumps + independent reference models + real streaming across the first boundary", "6.8")
 
+check("C18", "exploration",
+      "Two schedulers for the two halves of the property. Instances of every algorithm are interleaved in one thread by the seeded scheduler and each instance's transcript is compared with the same operations replayed alone (fresh world and thread; for a fraction of the runs alone in a brand-new process, so that statics are cold and no other instance ever existed). Threads: a workload of 2-4 threads released by a barrier, first calls racing on the one-time initialisations, runs in a fresh Miri interpreter per scheduler seed (a cold process); Miri's seeded scheduler decides every preemption, its race/deadlock detector is on, results are compared with sequential expectations computed natively.",
+      "Trusted: Miri's scheduler and data-race detector; under Miri the algorithms run on the portable ppv-lite86 backend and Groestl on Miri's AES-NI shims, so an intra-call race confined to the x86 vector modules or to std's CPUID cache is out of reach. Scheduler seeds are sampled.",
+      "deterministic simulation: seeded call-level interleaving with isolation replay (thread / cold process) + controlled thread scheduler (Miri seeds) from a cold process", "6.9")
+
 def main():
     m = dict(
         version=1,
@@ -84,7 +89,7 @@ def main():
         notes="Exit codes: 0 held, 1 VIOLATION line, 2 harness error. VERIF_SEED selects the exploration (default 1). Known findings: known_findings.json. See DESIGN.md.",
     )
     claimed = set(CHECKS)
-    pending = [p for p in ["C18"] if p not in claimed]
+    pending = []
     for p in pending:
         m["not_applicable"].append(dict(property_id=p, reason="applicable (see DESIGN.md) but its check is not built yet in this commit; not claimed until it is"))
     m["not_applicable"].sort(key=lambda e: e["property_id"])
